@@ -23,6 +23,7 @@ class Script:
         self.pk = []
         self.pv = []
         self.keys = {}      # id -> bytes
+        self.intkeys = set()   # key ids that stand for an integer (typed maps)
         self.vals = {}      # id -> len
         self.vbylen = {}
         self.meta = {"name": name}
@@ -49,6 +50,8 @@ class Script:
             self.nk -= 1
             return None
         self.keys[kid] = b
+        if u64 is not None:
+            self.intkeys.add(kid)
         return kid
 
     def key_in_bucket(self, ln, n, bucket, tries=3000000):
@@ -158,7 +161,7 @@ def params_of(rng, nb=None, bufs=False):
     return p
 
 
-def typed_keys(s, rng, kt, count):
+def typed_keys(s, rng, kt, count, odd=True):
     """keys for a typed map: ints at encoding boundaries and random ones"""
     enc = {"u64": "u64le", "i64": "i64le", "vu64": "vu64"}[kt]
     pool = set()
@@ -179,6 +182,15 @@ def typed_keys(s, rng, kt, count):
         k = s.key(u64=rng.getrandbits(rng.choice([8, 16, 32, 64])), enc=enc)
         if k:
             out.append(k)
+    if odd and count >= 6 and kt in ("u64", "i64"):
+        # DbU64 / DbI64 also take keys given as bytes / text of ANY length (From<&[u8]>, From<&str>), store them
+        # as they are and compare them as bytes: two of the keys are such byte strings (not the encoding of an
+        # integer).  Not for vu64 maps: DbVu64 compares the DECODED numbers, so bytes that are not a vu64
+        # encoding have no meaning there.
+        for j, ln in enumerate(rng.sample([1, 2, 3, 5, 7, 9, 13, 20], 2)):
+            k = s.key(ln)
+            if k:
+                out[-(j + 1)] = k
     return out
 
 
@@ -1165,6 +1177,16 @@ def gen_bulk(seed, idbase=0, nops=200, kt="bytes", nb=("BucketsSize", 16), name=
     raw = [s.val_invalid_utf8(x)[0] for x in (9, 20, 300, 11, 12, 13, 14)]
     s.op("open_db", db=0, dir="d")
     s.op("map", h=1, db=0, name="m", kt=kt, params={"buckets": list(nb)})
+    s.op("clone_h", h=2, **{"from": 1})
+    typed = kt in ("u64", "i64", "vu64")
+    _op = s.op
+
+    def bop(opname, **kw):
+        # typed maps: half of the bulk calls go through the integer key type (Q = u64 / i64) instead of the bytes
+        if typed and opname.startswith(("bulk_", "put_from_iter")) and opname != "put_from_iter_self" and rng.random() < 0.5 \
+                and all(k in s.intkeys for k in kw.get("ks", [])):
+            kw["via"] = "int"
+        return _op(opname, **kw)
 
     def batch(norepeat, lo=0, hi=12):
         n = rng.randrange(lo, hi)
@@ -1178,33 +1200,38 @@ def gen_bulk(seed, idbase=0, nops=200, kt="bytes", nb=("BucketsSize", 16), name=
 
     for i in range(nops):
         r = rng.random()
+        if i % 25 == 7:
+            # the "rewrite everything" idiom: put_from_iter fed by the map's own iterator / by another handle's
+            s.op("put_from_iter_self", h=1, src=rng.choice([1, 2]), flavour=rng.choice(["iter", "iter_mut", "into_iter"]))
+            s.op("dump", h=1)
+            continue
         if i % 40 == 0:
             # a batch that empties the map while absent keys are still pending, then batches on the empty map
             s.op("dump", h=1)
             allk = keys[:]
             rng.shuffle(allk)
-            s.op(rng.choice(["bulk_del", "bulk_del_string"]), h=1, ks=allk)
-            s.op(rng.choice(["bulk_del", "bulk_del_string"]), h=1, ks=rng.sample(keys, 3))
-            s.op("bulk_get", h=1, ks=rng.sample(keys, 2))
-            s.op("bulk_put", h=1, ks=keys[:2], vs=[vids[2], vids[3]])
-            s.op("bulk_del", h=1, ks=[keys[5], keys[0], keys[7], keys[1], keys[3]])
-            s.op("bulk_put", h=1, ks=[keys[9]], vs=[vids[1]])
-            s.op("bulk_get", h=1, ks=[])
-            s.op("bulk_del", h=1, ks=[])
+            bop(rng.choice(["bulk_del", "bulk_del_string"]), h=1, ks=allk)
+            bop(rng.choice(["bulk_del", "bulk_del_string"]), h=1, ks=rng.sample(keys, 3))
+            bop("bulk_get", h=1, ks=rng.sample(keys, 2))
+            bop("bulk_put", h=1, ks=keys[:2], vs=[vids[2], vids[3]])
+            bop("bulk_del", h=1, ks=[keys[5], keys[0], keys[7], keys[1], keys[3]])
+            bop("bulk_put", h=1, ks=[keys[9]], vs=[vids[1]])
+            bop("bulk_get", h=1, ks=[])
+            bop("bulk_del", h=1, ks=[])
             continue
         if r < 0.14:
-            s.op(rng.choice(["bulk_get", "bulk_get_string"]), h=1, ks=batch(False))
+            bop(rng.choice(["bulk_get", "bulk_get_string"]), h=1, ks=batch(False))
         elif r < 0.26:
             ks = batch(rng.random() < 0.85)
-            s.op(rng.choice(["bulk_del", "bulk_del_string"]), h=1, ks=ks)
+            bop(rng.choice(["bulk_del", "bulk_del_string"]), h=1, ks=ks)
         elif r < 0.40:
             ks = batch(True)
-            s.op(rng.choice(["bulk_put", "bulk_put_string"]), h=1, ks=ks, vs=[rng.choice(vids) for _ in ks])
+            bop(rng.choice(["bulk_put", "bulk_put_string"]), h=1, ks=ks, vs=[rng.choice(vids) for _ in ks])
         elif r < 0.52:
             ks = batch(False)                      # repeated keys allowed: applied in iteration order
             if ks and rng.random() < 0.7:
                 ks = ks + [rng.choice(ks)] + [ks[0]]
-            s.op("put_from_iter", h=1, ks=ks, vs=[rng.choice(vids + raw) for _ in ks])
+            bop("put_from_iter", h=1, ks=ks, vs=[rng.choice(vids + raw) for _ in ks])
         elif r < 0.60:
             s.op("put_string", h=1, k=rng.choice(keys), v=rng.choice(vids))
         elif r < 0.68:
@@ -1321,15 +1348,26 @@ def gen_typed(seed, idbase=0, kt="u64", nb=("BucketsSize", 1), nops=250, name="t
     for i in range(nops):
         r = rng.random()
         k = rng.choice(keys)
-        via = "int" if rng.random() < 0.8 else "bytes"
+        via = "int" if (k in s.intkeys and rng.random() < 0.8) else "bytes"
         if r < 0.45:
             s.op("put", h=1, k=k, v=rng.choice(vids), via=via)
         elif r < 0.62:
             s.op("del", h=1, k=k, via=via)
         elif r < 0.80:
             s.op("get", h=1, k=k, via=via)
-        elif r < 0.88:
+        elif r < 0.86:
             s.op("includes", h=1, k=k, via=via)
+        elif r < 0.90 and kt in ("u64", "i64", "vu64"):
+            # the bulk calls address the same entries as the single calls: batches in which the numeric order
+            # and the order of the encoded bytes disagree, through the integer key type
+            ks = list(dict.fromkeys(rng.choice([x for x in keys if x in s.intkeys]) for _ in range(rng.randrange(2, 12))))
+            w = rng.random()
+            if w < 0.5:
+                s.op("bulk_get", h=1, ks=ks, via="int")
+            elif w < 0.75:
+                s.op("bulk_put", h=1, ks=ks, vs=[rng.choice(vids) for _ in ks], via="int")
+            else:
+                s.op("bulk_del", h=1, ks=ks, via="int")
         elif r < 0.94:
             s.op("iter", h=1, flavour=rng.choice(FLAVOURS))
         else:
@@ -1366,7 +1404,7 @@ def gen_golden(kind, kt, idbase=0):
         nb, nkeys = ["Capacity", 1000], 300
         vl = [0, 3, 8, 20]
     if kt in ("u64", "i64", "vu64"):
-        keys = typed_keys(s, rng, kt, nkeys)
+        keys = typed_keys(s, rng, kt, nkeys, odd=False)
     else:
         keys = []
         lens = [1, 4, 8, 10, 11, 16, 30, 100, 0] if kind != "large" else [10, 100, 200, 300]
